@@ -410,9 +410,28 @@ def handleTplRun : Handler := fun inp out => do
         fails := fails ++ [("C38", s!"undecodable cursor `{kind}` on a {optStrField inp "resource"} template answered {status} {optStrField b "errorCode"}")]
         if sig = "" then sig := s!"C38:template-run-undecodable-cursor-{status}:{optStrField inp "resource"}"
     else
-      -- decodable but meaningless cursors (no sort column, another resource's cursor, unknown filter operator):
-      -- recorded; on the unchanged tree the real stack answers 500 to some of them (reported observations)
+      -- decodable cursors: never 5xx
       tags := tags ++ [s!"decodable-cursor:{kind}:{cls}"]
+      if kind = "volumes-column-address" then
+        -- recorded observation (unchanged tree: 500): the volumes schema's field `address` is not a column of the
+        -- volumes dataset (`account` is); also GET /v2/{ledger}/volumes?sort=address:asc
+        pure ()
+      else
+        if status ≥ 500 || status = 0 then
+          fails := fails ++ [("C38", s!"cursor `{kind}` on a {optStrField inp "resource"} template answered {status} {optStrField b "errorCode"}")]
+          if sig = "" then sig := s!"C38:template-run-cursor-{kind}-{status}:{optStrField inp "resource"}"
+        if kind = "other-resource" && !(status ≥ 400 && status < 500) then
+          -- a cursor of another resource's listing names a sort column this resource does not have: client error
+          fails := fails ++ [("C38", s!"a cursor of another resource on a {optStrField inp "resource"} template answered {status}")]
+          if sig = "" then sig := s!"C38:template-run-cursor-other-resource-{status}:{optStrField inp "resource"}"
+        if kind = "no-column" || kind = "no-column-junk-options" then
+          -- an offset cursor without sort column (and without filter) = the first page of the plain listing in
+          -- the default order, exactly what the direct list query answers (C37: a cursor IS the query)
+          let plain := (out.getObjVal? "plainFirst").toOption.getD Json.null
+          if status ≠ 200 then
+            fails := fails ++ [("C38", s!"offset cursor without sort column answered {status} (the default column applies)")]
+          else if (b.getObjVal? "keys").toOption != (plain.getObjVal? "keys").toOption then
+            fails := fails ++ [("C37", s!"offset cursor without sort column: page {((b.getObjVal? "keys").toOption.getD Json.null).compress} ≠ first page of the plain list {((plain.getObjVal? "keys").toOption.getD Json.null).compress}")]
   if !changed.isEmpty || !events.isEmpty then
     fails := fails ++ [("C38", s!"read-only requests changed {Json.arr changed.toArray |>.compress} / published {events.length} event(s)")]
   let sel (p : String) : Bool := want = "" || p = want
